@@ -23,12 +23,28 @@ def installed_closures(prog):
                 continue
             # the boxed closure: Box::new(closure) possibly cloned
             seen, calls, _ = data_deps(b, s.node["args"][1])
+            n0 = len(out)
             for x in b.sites():
                 nd = x.node
                 if x.si is not None and nd["k"] == "assign" and nd["rv"]["k"] == "aggregate" and nd["rv"]["agg"].get("kind") == "closure" and nd["dst"]["l"] in seen:
                     cb = prog.lib(nd["rv"]["agg"]["path"])
                     if cb is not None:
                         out.append((m.group(1), cb, b, s))
+            if len(out) == n0:
+                # the boxed closure is made by a named function (`set_x_fn(make_x_fn(solver))`): the closure that function returns
+                for o in origins(b, s.node["args"][1], transparent=("core::clone::Clone::clone",)):
+                    if o.kind != "call":
+                        continue
+                    mk = prog.body_for_callee(o.data, b)
+                    if mk is None or mk.kind == "closure" or "Box<dyn" not in mk.ret_ty.replace("alloc::boxed::", ""):
+                        continue
+                    rseen, _, _ = data_deps(mk, {"l": 0, "p": []})
+                    for x in mk.sites():
+                        nd = x.node
+                        if x.si is not None and nd["k"] == "assign" and nd["rv"]["k"] == "aggregate" and nd["rv"]["agg"].get("kind") == "closure" and nd["dst"]["l"] in rseen:
+                            cb = prog.lib(nd["rv"]["agg"]["path"])
+                            if cb is not None:
+                                out.append((m.group(1), cb, b, s))
     return out
 
 from ..prov import prov as _prov  # noqa: E402
@@ -102,7 +118,7 @@ def splitter_roles(prog, fn):
             roles[i] = "members"
         elif pol == {"complement"}:
             roles[i] = "complement"
-        elif None in pol:
+        elif None in pol or not pol:
             roles[i] = "undecided"
         else:
             roles[i] = "mixed:%s" % sorted(str(p) for p in pol)
@@ -142,11 +158,23 @@ def rule_blocking(ctx):
         r.check(has_sel and not any(l.role == "SEL" and l.pos is False for l in lits), anchor, "selector:%s" % [l for l in lits if l.role == "SEL"], "the blocking clause carries the positive selector", "the blocking clause does not carry the positive selector (it cannot be switched off for same-range searches / retired)", a.loc())
         # the clause vector = complement component of the splitter
         base = None
-        for o in origins(cb, a.node["args"][1], transparent=()):
-            if o.kind == "call":
-                t = prog.body_for_callee(o.data, cb)
-                if t is not None and o.fields:
-                    base = (t, int(str(o.fields[0])) if str(o.fields[0]).isdigit() else None)
+        work = [a.node["args"][1]]
+        for _ in range(4):
+            nxt = []
+            for opx in work:
+                for o in origins(cb, opx, transparent=()):
+                    if o.kind == "call":
+                        t = prog.body_for_callee(o.data, cb)
+                        if t is not None and o.fields:
+                            base = (t, int(str(o.fields[0])) if str(o.fields[0]).isdigit() else None)
+                        elif t is not None and t.kind != "closure" and not o.fields:
+                            # a helper that hands one of its vector parameters back (after pushing onto it)
+                            for ro in origins(t, {"l": 0, "p": []}, transparent=()):
+                                if ro.kind == "param" and ro.data - 1 < len(o.site.node["args"]) and "Vec<sat::sat_solver::Literal>" in t.local_ty(ro.data):
+                                    nxt.append(o.site.node["args"][ro.data - 1])
+            if base is not None or not nxt:
+                break
+            work = nxt
         if r.check(base is not None and base[1] is not None, anchor, "no-splitter", "the clause is a component of a splitter's result", "cannot relate the blocking clause to the member / complement split of the current set", a.loc()):
             roles = splitter_roles(prog, base[0])
             if "undecided" in roles.values():
